@@ -18,6 +18,16 @@ from ..provider.location import FieldLoc, TypeHintLoc
 from .provider_template import ConverterProvider
 
 
+class _ConstantRef:
+    """Object whose repr is a name of constant at namespace of generated code"""
+
+    def __init__(self, name: str):
+        self._name = name
+
+    def __repr__(self):
+        return self._name
+
+
 class BuiltinConverterProvider(ConverterProvider):
     def __init__(self, *, name_sanitizer: NameSanitizer = BuiltinNameSanitizer()):
         self._name_sanitizer = name_sanitizer
@@ -97,8 +107,16 @@ class BuiltinConverterProvider(ConverterProvider):
         namespace.add_outer_constant("_update_wrapper", update_wrapper)
         coercer_var = self._register_mangled(namespace, "coercer", coercer)
 
+        no_types_parameters = []
+        for idx, param in enumerate(signature.parameters.values()):
+            if param.default is not Signature.empty:
+                # default is passed as constant, repr of arbitrary object must not be rendered to source code
+                default_name = f"_default_{idx}"
+                namespace.add_outer_constant(default_name, param.default)
+                param = param.replace(default=_ConstantRef(default_name))  # noqa: PLW2901
+            no_types_parameters.append(param.replace(annotation=Signature.empty))
         no_types_signature = signature.replace(
-            parameters=[param.replace(annotation=Signature.empty) for param in signature.parameters.values()],
+            parameters=no_types_parameters,
             return_annotation=Signature.empty,
         )
         parameters = tuple(signature.parameters.values())
